@@ -37,6 +37,10 @@ def gen_cases(ctx, n_hist, n_tree, n_consumer, tree_ops=(6, 7), big=False,
         if rng.random() < 0.3:
             c["abandon_after"] = [rng.choice([1, 1, 2, 3, rng.randint(1, 12)])
                                   for _ in range(rng.choice([1, 1, 2]))]
+        if rng.random() < 0.12:
+            # the dispatcher is copied (copy.deepcopy) in the middle of the history and the copy
+            # goes its own way: the two must not influence each other
+            c["fork_at"] = rng.choice([1, 1, 2, 3, rng.randint(1, 10)])
         yield c
     for i in range(n_tree):
         inst = gen.gen_instance(rng, rng.choice(classes or gen.INSTANCE_CLASSES),
@@ -80,6 +84,7 @@ class Hooks:
     def reset(self, run): pass
     def accepted_invalid(self, run, o, m): pass
     def refused_add_changed_schedule(self, run, accepted, n_before): pass
+    def fork_diverged(self, run, detail): pass
     def before(self, run): pass
     def after(self, run, o, m): pass
     def end(self, run): pass
@@ -93,7 +98,15 @@ def run_history(ctx, case, hooks: Hooks, instance=None):
     explicit = case.get("history")
     k = 0
     abandon = list(case.get("abandon_after") or []) if explicit is None else []
+    fork_at = case.get("fork_at") if explicit is None else None
     while not run.done():
+        if fork_at is not None and len(run.r.history) == fork_at:
+            fork_at = None
+            detail = _fork(ctx, run, case, rng)
+            if detail:
+                hooks.fork_diverged(run, detail)
+                return run
+            continue
         if abandon and len(run.r.history) >= abandon[0]:
             # abandon the episode: reset dispatcher and reference model, start over
             abandon.pop(0)
@@ -164,6 +177,53 @@ def run_history(ctx, case, hooks: Hooks, instance=None):
         hooks.after(run, o, m)
     hooks.end(run)
     return run
+
+
+def _state_vs_ref(run):
+    from ..ref import schedule_triples
+    d, r = run.d, run.r
+    got = (schedule_triples(d.schedule), list(d.machine_next_available_time),
+           list(d.job_next_available_time), list(d.job_next_operation_index))
+    want = (r.triples(), list(r.machine_end), list(r.job_end), list(r.job_next))
+    return None if got == want else {"got": got, "want": want, "history": list(r.history)}
+
+
+def _fork(ctx, run, case, rng):
+    """copy.deepcopy(dispatcher) mid-history; the copy continues on its own for a while (and is
+    sometimes reset).  Returns a description if either dispatcher no longer matches the state
+    implied by its own history."""
+    import copy
+    d2 = copy.deepcopy(run.d)
+    twin = Run(case["instance"], case.get("filter"), dispatcher=d2, instance=d2.instance)
+    twin.r = run.r.clone()
+    ctx.count("forks")
+    left = twin.r.num_ops - len(twin.r.history)
+    for _ in range(rng.randint(1, max(1, left))):
+        if twin.done():
+            break
+        o, m = twin.choose(rng, rng.choice(gen.POLICIES))
+        twin.dispatch(o, m)
+        ctx.count("fork_dispatches")
+        for who, x in (("copy", twin), ("original", run)):
+            bad = _state_vs_ref(x)
+            if bad:
+                return dict(bad, who=who, when="after a dispatch on the copy")
+    if rng.random() < 0.4:
+        twin.d.reset()
+        twin.r.reset()
+        bad = _state_vs_ref(run)
+        if bad:
+            return dict(bad, who="original", when="after a reset of the copy")
+    # one step on the original, then the copy must be untouched
+    if not run.done():
+        o, m = run.choose(rng, rng.choice(gen.POLICIES))
+        run.dispatch(o, m)
+        ctx.count("dispatches")
+        for who, x in (("copy", twin), ("original", run)):
+            bad = _state_vs_ref(x)
+            if bad:
+                return dict(bad, who=who, when="after a dispatch on the original")
+    return None
 
 
 def run_tree(ctx, case, hooks: Hooks):
